@@ -382,7 +382,7 @@ class Pred:
         # a > b  <=>  a - b - 1 >= 0
         d = (a - b) if op == '>' else (b - a)
         if op in ('>', '<'):
-            if any(at[0] == 'S' for at in d.atoms()):
+            if _real_valued(d):
                 return Pred('gt0', d)
             return Pred('ge0', d - 1)
         if op == '==':
@@ -406,11 +406,13 @@ class Pred:
         if self.kind == 'not':
             return self.arg
         if self.kind == 'ge0':      # not (p >= 0)  <=>  -p - 1 >= 0   (integers)
-            if any(at[0] == 'S' for at in self.arg.atoms()):
-                return Pred('gt0', -self.arg)
+            if _real_valued(self.arg):
+                # reals (loss values, ...) can be NaN: `not (a >= b)` is NOT `a < b` then (both comparisons are false on NaN), so the
+                # negation of a real comparison stays a negation
+                return Pred('not', self)
             return Pred('ge0', -self.arg - 1)
         if self.kind == 'gt0':
-            return Pred('ge0', -self.arg)
+            return Pred('not', self)
         if self.kind == 'and':      # De Morgan: negations are pushed to the comparisons (one normal form for both spellings)
             ps = [as_pred(p).negate() for p in self.arg]
             return Pred.disj(ps)
@@ -497,6 +499,20 @@ class Pred:
         if self.kind == 'lt_real': return f"[{self.arg[0]} <R {self.arg[1]}]"
         if self.kind in ('and', 'or'): return "(" + f" {self.kind} ".join(map(repr, self.arg)) + ")"
         return f"[{self.arg}]"
+
+
+_INTEGER_VALUED_OPS = ('count_nonzero', '.size', '.ndim', 'dim', 'len', 'floordiv', 'mod', 'argmax', 'argmin', 'argsort', 'top_k.idx',
+                       'shape_rest', 'arange', '$i')
+
+
+def _real_valued(d):
+    """the polynomial involves an opaque quantity that is not known to be an integer (a loss value, an array entry, ...)"""
+    for at in d.atoms():
+        if at[0] == 'S':
+            op = at[1].op if isinstance(at[1], Sym) else None
+            if op not in _INTEGER_VALUED_OPS:
+                return True
+    return False
 
 
 def as_pred(x):
@@ -745,7 +761,12 @@ class SymDim:
     def __mul__(self, o): return self._derived(o, '*', lambda a, b: a * b)
     __rmul__ = __mul__
     def __eq__(self, o):
-        if isinstance(o, SymDim): return o.name == self.name
+        if isinstance(o, SymDim):
+            if o.name == self.name:
+                return True
+            # extents of two DIFFERENT axes: generic (unrelated) unless a configuration declares both and they coincide
+            ea, eb = AXIS_EXTENT.get(self.name), AXIS_EXTENT.get(o.name)
+            return ea is not None and eb is not None and ea == eb
         if isinstance(o, (int, Poly)): return False   # a row axis is never a small literal extent
         return NotImplemented
     def __ne__(self, o): return not self.__eq__(o)
